@@ -10,11 +10,30 @@ pub use core::*;
 use crate::tzdb::FsTzdbProvider;
 #[cfg(feature = "compiled_data")]
 #[cfg(not(temporal_verif))]
-use std::sync::{LazyLock, Mutex};
+use std::sync::{LazyLock, LockResult, Mutex, MutexGuard, PoisonError};
 #[cfg(all(feature = "compiled_data", temporal_verif))]
 #[allow(unused_imports)]
 use crate::verif_hooks::sync::*;
 
+/// The process-wide time zone provider behind the `compiled_data` API.
+///
+/// A panic while the provider is locked (e.g. inside a time zone lookup) must
+/// not disable the convenience API for the rest of the process, so `lock`
+/// recovers the guard from a poisoned mutex. This is sound because the only
+/// state behind the lock is a memo of parsed time zone files, which is only
+/// ever extended by a single insert of a completely parsed entry: a panic
+/// cannot leave it half-updated.
 #[cfg(feature = "compiled_data")]
-pub static TZ_PROVIDER: LazyLock<Mutex<FsTzdbProvider>> =
-    LazyLock::new(|| Mutex::new(FsTzdbProvider::default()));
+pub struct SharedTzProvider(Mutex<FsTzdbProvider>);
+
+#[cfg(feature = "compiled_data")]
+impl SharedTzProvider {
+    /// Acquires the provider, ignoring poisoning.
+    pub fn lock(&self) -> LockResult<MutexGuard<'_, FsTzdbProvider>> {
+        Ok(self.0.lock().unwrap_or_else(PoisonError::into_inner))
+    }
+}
+
+#[cfg(feature = "compiled_data")]
+pub static TZ_PROVIDER: LazyLock<SharedTzProvider> =
+    LazyLock::new(|| SharedTzProvider(Mutex::new(FsTzdbProvider::default())));
